@@ -299,7 +299,9 @@ struct C20 : public Driver {
                           "signal " + std::to_string(A.sig) + " inside the library during " + at + (R.modeB ? " (mode B: an allocation had been refused earlier in this history: " + std::to_string(R.mm.refused) + ")" : ""));
         } else {
             R.tr.ev("watchdog");
-            R.res.harness("watchdog: history did not finish within 20 s, during " + at);
+            // a history is a few dozen container operations taking microseconds: 20 s inside one of them is an endless traversal of a
+            // corrupted structure (seen: a list node linked to itself), which is the library's doing, not the harness's
+            R.ordinary("hang", R.cont + ":" + R.kind, "the history did not finish within 20 s, during " + at);
         }
     }
 
